@@ -100,7 +100,14 @@ class Fold:
         if k == 'deref':
             a = self.ev(x[1])
             return a
-        if k in ('ref', 'undef', 'fnref', 'opaque', 'tbl', 'tblref'):
+        if k == 'ref':
+            if x[1][0] == 'val':
+                inner = self.ev(x[1][1])
+                if inner[0] == 'c' and inner[2] == 'str':
+                    return inner
+                return mk('ref', ('val', inner), x[2])
+            return x
+        if k in ('undef', 'fnref', 'opaque', 'tbl', 'tblref'):
             return x
         raise Uncertified("fold of %s" % k)
 
@@ -125,14 +132,11 @@ class Fold:
             r = {'fceil': math.ceil, 'ffloor': math.floor, 'ftrunc': math.trunc, 'fabs': abs,
                  'fround': lambda v: math.floor(abs(v) + 0.5) * (1 if v >= 0 else -1)}[m](a)
             return C(float(r), 'f32')
-        if m in ('has_char', 'char_at', 'has_token', 'token'):
-            s_ = self.ev(x[2][0])
-            pos = self.ev(x[2][1])[1]
-            key = (m, s_, pos)
+        if m in ('has_char', 'char_at', 'has_token', 'token', 'has_ascii_token', 'ascii_token', 'str_len', 'str_slice', 'is_char_boundary_range'):
             h = self.env.get('$str')
             if h is None:
                 raise Uncertified("string model unbound in fold")
-            return h(m, s_, pos)
+            return h(m, *[self.ev(a) for a in x[2]])
         if m in ('bsearch_hit', 'bsearch_pos'):
             t = self.pdb.table(x[2][0][1])
             v = self.ev(x[2][1])[1]
